@@ -164,7 +164,41 @@ def run(F, chk):
     chk.instance(R2, ok=ok, sample={"fn": "LinkGeomData", "loop": "for block in blocks"})
     if not ok:
         chk.violation("R11.2", "C11/R11.2:LinkGeomData:loop", where(link), "LinkGeomData no longer visits every block")
-    chk.floor(R2, 7)
+    # the re-link must not depend on the value of the cache it re-establishes: after Clone() the cache is non-null and stale
+    cache_fields = {fld for (_, fld) in cache}
+    cache_getters = {f["short"] for f in F.fns.values() if f.get("cls") and f.get("const") and f.get("body") and not f.get("params") and
+                     F.derives_from(f["cls"], "nifly::NiShape") and
+                     any(x["k"] == "Return" and is_node(x.get("e")) and any(
+                         y["k"] == "Member" and y.get("name") in cache_fields for y in walk(x["e"])) for x in walk(f["body"]))}
+    chk.extra["cache_getters"] = sorted(cache_getters)
+    sg_calls = [n for n in walk(link["body"]) if n["k"] == "Call" and n.get("short") == "SetGeomData"]
+    ids_ = {id(n) for n in sg_calls}
+    saved_reg = flow.KEYNODE
+    flow.KEYNODE = {}
+    try:
+        colk = flow.Collect(F, link, lambda n: id(n) in ids_)
+        colk.run()
+        reg = flow.KEYNODE
+    finally:
+        flow.KEYNODE = saved_reg
+    for n, sts in colk.by_node():
+        bad = None
+        for st in sts:
+            for f in (st or ()):
+                if f[0] != "G":
+                    continue
+                node = reg.get(f[1])
+                node = node[1] if isinstance(node, tuple) and len(node) > 1 else node
+                if is_node(node) and any((y["k"] == "Call" and y.get("short") in cache_getters) or
+                                         (y["k"] == "Member" and y.get("name") in cache_fields) for y in walk(node)):
+                    bad = f[1]
+        chk.instance(R2, ok=bad is None, sample={"fn": "LinkGeomData", "relink_unconditional_on_cache": bad is None})
+        if bad is not None:
+            chk.violation("R11.2", "C11/R11.2:LinkGeomData:conditional", where(link, n),
+                          "LinkGeomData re-links a shape only depending on `%s`, the very cache it re-establishes: a cloned shape "
+                          "arrives with a non-null cache that points into the source model, so the copy keeps sharing the "
+                          "source's geometry" % bad)
+    chk.floor(R2, 8)
 
     # ---------------- R11.3 member coverage, rule of zero
     nf = F.recs.get("nifly::NifFile")
